@@ -5,7 +5,10 @@ did; reference server for the closed-loop handshakes).
 
 A case is [unix, user, keyring, seeds, lines] (open loop: the harness plays an arbitrary
 server) or ['loop', unix, user, seeds, [accepted, agrees_fd, ext_challenges], bytewise]
-(closed loop against the Coq reference server, run step by step through modelrun).
+(closed loop against the Coq reference server, run step by step through modelrun), or
+['loopnc', unix, user, seeds, cfg, bytewise, kind] (the same with a keyring that CANNOT answer the
+server's cookie challenge: kind 'noid' the context file lacks the id, 'missing' no keyring directory,
+'others' / 'group' a keyring directory accessible to others / the group, which must not be used).
 
   keyring  [[context, [[id, cookie], ...]], ...]   files written under $HOME/.dbus-keyrings
   seeds    the values os.urandom(8) returns, in order
@@ -44,7 +47,11 @@ ASSUMPTIONS = [
     'keyring directory states (mode with group/other bits, foreign owner - chown needs euid 0, otherwise a mode with '
     'other bits stands in -, missing): the client can look nothing up; model and oracle are handed the empty keyring',
     'the reference server of the liveness runs uses fixed GUID, cookie context/id/challenge/cookie; its cookie '
-    'is present in the client\'s keyring (the meaning of "accepts DBUS_COOKIE_SHA1" for this user)',
+    'is present in the client\'s keyring (the meaning of "accepts DBUS_COOKIE_SHA1" for this user) in the '
+    '\'loop\' cases; in the \'loopnc\' cases the keyring cannot answer (context file without the id / no directory / '
+    'directory with group or other bits, which holds the cookie but must not be used): the handshake must '
+    'complete exactly when the server also accepts EXTERNAL or ANONYMOUS (C07_completes_without_cookie), and '
+    'against a DBUS_COOKIE_SHA1-only server the client must close (C07_gives_up_without_cookie)',
 ]
 
 SIGNATURES = {
@@ -69,6 +76,21 @@ SRV_ID = b'42'
 SRV_CHALLENGE = b'deadbeef01'
 SRV_COOKIE = b'c0ffeec0ffee'
 LOOP_KEYRING = [[SRV_CTX, [[b'7', b'00ff'], [b'4210022', b'bad0bad0'], [SRV_ID, SRV_COOKIE]]]]   # an earlier id of which the wanted id is a proper prefix
+
+# closed loop, keyring that cannot answer: the server's context file with other ids only (one of which has the
+# wanted id as a proper prefix, one is a proper prefix of it)
+NC_KEYRING = [[SRV_CTX, [[b'7', b'00ff'], [b'4210022', b'bad0bad0'], [b'4', b'0badc0de']]]]
+# kind -> (keyring files, state of the directory, keyring of the model: 1 other_keyring, 2 no_keyring)
+NC_KINDS = {'noid': (NC_KEYRING, KDIR_OK, 1), 'missing': (LOOP_KEYRING, KDIR_MISSING, 2),
+            'others': (LOOP_KEYRING, KDIR_OTHERS, 2), 'group': (LOOP_KEYRING, KDIR_GROUP, 2)}
+
+
+def loop_keyring(c):
+    """(keyring files, directory state, model keyring kind) of a closed-loop case"""
+    if c[0] == 'loopnc':
+        return NC_KINDS[c[6]]
+    return LOOP_KEYRING, KDIR_OK, 0
+
 
 hexl = binascii.hexlify
 
@@ -425,11 +447,13 @@ def failure_phase(log):
 def evaluate_loop(env, cases, res):
     """Real client against the Coq reference server: the server is a function of everything the
     client has written so far, re-run through modelrun each round."""
-    stats = res.extra.setdefault('closed_loop', {'runs': 0, 'completed': 0})
+    stats = res.extra.setdefault('closed_loop', {'runs': 0, 'completed': 0, 'cookie_unanswerable_runs': 0,
+                                                 'cookie_unanswerable_completed': 0, 'cookie_unanswerable_gave_up': 0})
     st = []
     for c in cases:
-        _, unix, user, seeds, cfg, bytewise = c
-        env.enter(user, LOOP_KEYRING, seeds)
+        unix, user, seeds, cfg, bytewise = c[1:6]
+        kr, kd, _ = loop_keyring(c)
+        env.enter(user, kr, seeds, kd)
         try:
             p, t = env.connect(bool(unix))
         finally:
@@ -461,7 +485,8 @@ def evaluate_loop(env, cases, res):
                 progress = True
                 data = l + b'\r\n'
                 pieces = [data[i:i + 1] for i in range(len(data))] if c[5] else [data]
-                env.enter(c[2], LOOP_KEYRING, s['seeds_left'])
+                kr, kd, _ = loop_keyring(c)
+                env.enter(c[2], kr, s['seeds_left'], kd)
                 try:
                     for piece in pieces:
                         s['p'].dataReceived(piece)
@@ -480,28 +505,43 @@ def evaluate_loop(env, cases, res):
                 s['log'].extend(tok_sexp(x) for x in toks)
         if not progress:
             break
-    mouts = common.run_model(['(7 2 %s)' % ' '.join(common.dump(x) for x in
-                                                   [c[1], c[2], s['nonces'], s['sha'], c[4], 0])
+    mouts = common.run_model([('(7 4 %s)' if c[0] == 'loopnc' else '(7 2 %s)') % ' '.join(common.dump(x) for x in
+                              [c[1], c[2], s['nonces'], s['sha'], c[4], loop_keyring(c)[2] if c[0] == 'loopnc' else 0])
                               for c, s in zip(cases, st)])
     for c, s, mo in zip(cases, st, mouts):
-        stats['runs'] += 1
+        nc = c[0] == 'loopnc'
+        stats['cookie_unanswerable_runs' if nc else 'runs'] += 1
         res.count(c, nontrivial=True)
         authd = any(x[0] == 'authd' for x in s['raw_log'])
         closed = any(x[0] == 'close' for x in s['raw_log'])
         done = authd and not closed and s['state'] == 4
+        gave_up = closed and not authd and s['state'] == 5
         if done:
-            stats['completed'] += 1
+            stats['cookie_unanswerable_completed' if nc else 'completed'] += 1
+        if nc and gave_up:
+            stats['cookie_unanswerable_gave_up'] += 1
         canon = [[e[0], canon_line(e[1])] if e[0] in (1, 4) else e for e in s['log']]
         mlog = [[e[0], canon_line(e[1])] if e[0] in (1, 4) else e for e in mo[1]]
-        if canon != mlog or bool(mo[0]) != done:
-            res.disagree(c, {'completed': done, 'log': canon}, {'completed': bool(mo[0]), 'log': mlog})
-        if not done:
-            viol(res, c, 'handshake with the reference server (accepts %r, fd answer %s, EXTERNAL %s) on a %s '
-                           'transport does not complete: server state %d, client authenticated=%s closed=%s; exchange %r'
-                        % ([m.decode() for m in c[4][0]], 'AGREE_UNIX_FD' if c[4][1] else 'ERROR',
-                           'challenges' if c[4][2] else 'accepts at once', 'UNIX' if c[1] else 'non-UNIX',
-                           s['state'], authd, closed, s['raw_log']),
-                        'handshake-with-conforming-server-incomplete' + failure_phase(s['raw_log']))
+        if canon != mlog or bool(mo[0]) != done or (nc and bool(mo[2]) != gave_up):
+            res.disagree(c, {'completed': done, 'gave_up': gave_up, 'log': canon},
+                         {'completed': bool(mo[0]), 'gave_up': bool(mo[2]) if nc else None, 'log': mlog})
+        what = ('handshake with the reference server (accepts %r, fd answer %s, EXTERNAL %s) on a %s transport'
+                % ([m.decode() for m in c[4][0]], 'AGREE_UNIX_FD' if c[4][1] else 'ERROR',
+                   'challenges' if c[4][2] else 'accepts at once', 'UNIX' if c[1] else 'non-UNIX'))
+        how = ('server state %d, client authenticated=%s closed=%s; exchange %r' % (s['state'], authd, closed, s['raw_log']))
+        if not nc:
+            if not done:
+                viol(res, c, '%s does not complete: %s' % (what, how),
+                     'handshake-with-conforming-server-incomplete' + failure_phase(s['raw_log']))
+        elif [bytes(m) for m in c[4][0]] != [b'DBUS_COOKIE_SHA1']:
+            # C07_completes_without_cookie: the server accepts EXTERNAL or ANONYMOUS
+            if not done:
+                viol(res, c, '%s, client keyring unable to answer the cookie challenge (%s), does not complete: %s'
+                     % (what, c[6], how), 'handshake-with-conforming-server-incomplete:cookie-unanswerable')
+        elif not gave_up:
+            # C07_gives_up_without_cookie: nothing is left to offer - the client must close, not hang
+            viol(res, c, '%s, client keyring unable to answer the cookie challenge (%s): the client neither '
+                 'authenticates nor closes: %s' % (what, c[6], how), 'stall-cookie-only-server:cookie-unanswerable')
 
 
 def run_impl_chunks(env, unix, chunks):
@@ -583,8 +623,8 @@ def evaluate(ctx, cases, res):
     cases = [list(c) for c in cases]
     env = Env()
     try:
-        open_cases = [c for c in cases if c and c[0] not in ('loop', 'cut')]
-        loop_cases = [c for c in cases if c and c[0] == 'loop']
+        open_cases = [c for c in cases if c and c[0] not in ('loop', 'loopnc', 'cut')]
+        loop_cases = [c for c in cases if c and c[0] in ('loop', 'loopnc')]
         cut_cases = [c for c in cases if c and c[0] == 'cut']
         if open_cases:
             evaluate_open(env, open_cases, res)
@@ -675,7 +715,8 @@ def run(ctx, res):
                 'followed by each line once), UNIX and non-UNIX transport, each under four cuttings into reads; '
                 'random sequences up to length 14 over generated lines (random hex, white space, non-UTF-8), a few '
                 'over-long lines; closed loop: real client against the Coq reference server for all 7 accepted sets '
-                'x fd answer x EXTERNAL style x transport x whole/byte-wise reads.  Non-trivial: at least two server '
+                'x fd answer x EXTERNAL style x transport x whole/byte-wise reads, with the server\'s cookie in the keyring and '
+                'with each of four keyrings that cannot answer the challenge.  Non-trivial: at least two server '
                 'lines and the client sent two lines after its opening or authenticated'
                 % (' / '.join(str(d) for _, d in plans), ' / '.join(str(len(a)) for a, _ in plans)))
     seeds = [bytes([i + 1]) * 8 for i in range(9)]
@@ -758,5 +799,8 @@ def run(ctx, res):
     for acc, fd, ext, unix, bw in itertools.product(sets, (1, 0), (1, 0), (0, 1), (0, 1)):
         sd = [bytes(rng.randrange(256) for _ in range(8)) for _ in range(3)]
         loops.append(['loop', unix, rng.choice(users), sd, [acc, fd, ext], bw])
+        # the same handshake with each keyring that cannot answer the server's cookie challenge
+        for kind in ('noid', 'missing', 'others', 'group'):
+            loops.append(['loopnc', unix, rng.choice(users), sd, [acc, fd, ext], bw, kind])
     evaluate(ctx, loops, res)
     res.sample(loops[5])
